@@ -22,11 +22,14 @@ if not _PROGRAM_PATH.exists():
 
 
 def check_sid_folder_exist(sid: str):
-    return _PROGRAM_PATH.joinpath(sid).exists()
+    # a service exists once everything its loader reads has been written
+    return _PROGRAM_PATH.joinpath(sid).exists() \
+           and _PROGRAM_PATH.joinpath(sid).joinpath("config.json").exists() \
+           and _PROGRAM_PATH.joinpath(sid).joinpath("service_meta").exists()
 
 
 def create_sid_folder(sid: str):
-    _PROGRAM_PATH.joinpath(sid).mkdir()
+    _PROGRAM_PATH.joinpath(sid).mkdir(exist_ok=True)  # may be left over from an interrupted creation
 
 
 def delete_sid_folder(sid: str):
